@@ -302,6 +302,25 @@ func c07Deviations() []envDev {
 	// a twin that would *supply* a header the exact set lacks
 	twin(envenc.HdrExpiry, "io.cncf.notary.Expiry(no exact expiry)", tstr(9997*time.Hour), "noexpiry")
 	twin(envenc.HdrAuthTime, "io.cncf.notary.AuthenticSigningTime(under x509)", tstr(-95*time.Hour), "x509")
+	// COSE labels are matched exactly: an attribute whose label is a letter-case variant of a time header is just an attribute, whatever
+	// its value and wherever it is encoded (here: before the real headers). It neither lends its tag to the real header nor spoils it.
+	for _, cv := range []struct {
+		n     string
+		label string
+		val   envenc.CB
+		needs string
+	}{
+		{"cose-upper-case-variant-of-signing-time-label(tag-1 value, encoded first)", "IO.CNCF.NOTARY.SIGNINGTIME", envenc.CTag(1, envenc.CInt(0)), "x509"},
+		{"cose-upper-case-variant-of-authentic-signing-time-label(tag-1 value, encoded first)", "IO.CNCF.NOTARY.AUTHENTICSIGNINGTIME", envenc.CTag(1, envenc.CInt(0)), "sa"},
+		{"cose-upper-case-variant-of-expiry-label(tag-1 value, encoded first)", "IO.CNCF.NOTARY.EXPIRY", envenc.CTag(1, envenc.CInt(4102444800)), "expiry"},
+		{"cose-upper-case-variant-of-expiry-label(text value, encoded first)", "IO.CNCF.NOTARY.EXPIRY", envenc.CText("never"), ""},
+		{"cose-upper-case-variant-of-signing-time-label(text value, encoded first)", "IO.CNCF.NOTARY.SIGNINGTIME", envenc.CText("whenever"), ""},
+	} {
+		cv := cv
+		add(cv.n, "variant", "benign", "cose", cv.needs, func(s *envSpec) {
+			s.cose = append([]envenc.CMember{{Label: envenc.CText(cv.label), Value: cv.val}}, s.cose...)
+		})
+	}
 	add("cose-duplicate-protected-label", "dup", "recorded", "cose", "", func(s *envSpec) {
 		s.cose = append(s.cose, envenc.CMember{Label: envenc.CInt(3), Value: envenc.CText("second/cty")})
 	})
